@@ -813,3 +813,8 @@ V("c13-bounded-circle-cross-z", "fault", "C13", P + "convex_polygon.py",
 _QUAD_OLD = '            scalars = [\n                [5 / 3, 5 / 3, 5 / 3],\n                [[1], [1], [3]],\n                [[3], [1], [1]],\n                [[1], [3], [1]],\n            ]\n\n            q = np.zeros((abc.shape[0], 3, 4))\n\n            for i in range(4):\n                q[:, :, i] = np.sum(abc * scalars[i], axis=1)\n'
 V("c01-rw-quad-regular-table-columns", "rewrite", "C01", P + "convex_polyhedron.py", _QUAD_OLD, '            corner_weights = np.array(\n                [\n                    [5 / 3, 5 / 3, 5 / 3],\n                    [1.0, 1.0, 3.0],\n                    [3.0, 1.0, 1.0],\n                    [1.0, 3.0, 1.0],\n                ]\n            )\n\n            q = (\n                abc[:, 0, :, None] * corner_weights[:, 0]\n                + abc[:, 1, :, None] * corner_weights[:, 1]\n                + abc[:, 2, :, None] * corner_weights[:, 2]\n            )\n')
 V("c01-quad-regular-table-wrong-weight", "fault", "C01", P + "convex_polyhedron.py", _QUAD_OLD, '            corner_weights = np.array(\n                [\n                    [5 / 3, 5 / 3, 5 / 3],\n                    [1.0, 1.0, 2.0],\n                    [3.0, 1.0, 1.0],\n                    [1.0, 3.0, 1.0],\n                ]\n            )\n\n            q = (\n                abc[:, 0, :, None] * corner_weights[:, 0]\n                + abc[:, 1, :, None] * corner_weights[:, 1]\n                + abc[:, 2, :, None] * corner_weights[:, 2]\n            )\n', rule="QUAD")
+
+# ---- batch 9: a small-argument series branch must be the Taylor expansion of the closed form (FF-6)
+_SPH_OLD = '        form_factor[~zero_q] = (\n            4 * np.pi * self.radius * (np.sinc(qr / np.pi) - np.cos(qr))\n        ) / q_sqs[~zero_q]\n'
+V("c12-rw-sphere-series-branch-correct", "rewrite", ["C12", "C09"], P + "sphere.py", _SPH_OLD, '        with np.errstate(invalid="ignore", divide="ignore"):\n            closed_form = (\n                4 * np.pi * self.radius * (np.sinc(qr / np.pi) - np.cos(qr))\n            ) / q_sqs[~zero_q]\n        series = self.volume * (1 - qr**2 / 10 + qr**4 / 280)\n        form_factor[~zero_q] = np.where(qr < 2e-2, series, closed_form)\n')
+V("c12-sphere-series-branch-sinc-coefficients", "fault", "C12", P + "sphere.py", _SPH_OLD, '        with np.errstate(invalid="ignore", divide="ignore"):\n            closed_form = (\n                4 * np.pi * self.radius * (np.sinc(qr / np.pi) - np.cos(qr))\n            ) / q_sqs[~zero_q]\n        series = self.volume * (1 - qr**2 / 6 + qr**4 / 120)\n        form_factor[~zero_q] = np.where(qr < 2e-2, series, closed_form)\n', rule="FF-6")
